@@ -343,7 +343,7 @@ def run(tier, seed):
                 'string: parse_expr tree vs FP-frontend tree; distinct by string; non-trivial = at least one operator')
     ctx.functions = ['loki.expression.parser.ExpressionParser.__call__/parse_prefix/parse_postfix/parse_terminal',
                      'loki.expression.parser.PymbolicMapper', 'loki.frontend.fparser (oracle)']
-    ctx.bounds = {'int_vars': f'|v|<={BOUND}', 'real_vars': f'|v|<={BOUND}', 'int_exponent': '0..3', 'binary_operators': 3 if tier == 'quick' else 4,
+    ctx.bounds = {'int_vars': f'|v|<={BOUND}', 'real_vars': f'|v|<={BOUND}', 'int_exponent': '-3..3', 'binary_operators': 3 if tier == 'quick' else 4,
                   'outside': 'strings, array constructors, overflow, FP rounding'}
     ctx.assumptions = ['FP frontend tree and the independent reference parser agree on every string (checked per string; '
                        'disagreement -> inconclusive)', 'arr(k) is an uninterpreted Int->Int function']
